@@ -565,7 +565,7 @@ Proof.
       { unfold frag_done in Efd. rewrite Hm in Efd. exact Efd. }
       destruct (merge_step Hash (cf_limit (cfg st0)) (pm_sm m) slot ty rsp) as [[sm'|]| |] eqn:Em; try discriminate.
       2:{ exfalso. eapply merge_step_not_none; eassumption. }
-      destruct (is_auth_failure ty); [discriminate|].
+      destruct (is_auth_failure ty && ps_initializing sv)%bool; [discriminate|].
       destruct (merge_step_fdone _ _ _ _ _ _ _ Em) as [Md Mm].
       match goal with |- context [set_msg st0 mid ?x] => set (st1 := set_msg st0 mid x) end.
       assert (D1 : dmono st st1).
